@@ -802,4 +802,16 @@ def CDict.set (d : CDict) (k : Comp) (v : List Comp) : CDict :=
 def CDict.addTo (d : CDict) (k : Comp) (x : Comp) : CDict :=
   if d.has k then d.map (fun e => if e.1.id == k.id then (e.1, e.2 ++ [x]) else e) else d ++ [(k, [x])]
 
+/-- `d[k]` for a key that is there (the empty set otherwise) -/
+def CDict.get (d : CDict) (k : Comp) : List Comp :=
+  match d.find? (fun e => e.1.id == k.id) with
+  | some e => e.2
+  | none => []
+
+/-- the fallback formula a `FallbackFormulaMetricFetcher` would generate, as `[(id, nones_are_zeros)]`
+(an error while generating it leaves the term without fallback) -/
+def fbPairs : Formula → List (Nat × Bool)
+  | .ok ts => ts.map (fun t => (t.id, t.naz))
+  | .error _ => []
+
 end Graph
